@@ -201,6 +201,11 @@ pub struct AsyncScenario {
     pub seed: u64,
     pub index: u64,
     pub lifetimes: Vec<ALifetime>,
+    /// Some(f): instead of the lifetimes, ONE thread tries to hold two injectors at once, both
+    /// faking async function #f, and lets go of the older one first (two fields of a fixture).
+    /// Where creating the second injector blocks forever there is nothing to judge.
+    #[serde(default)]
+    pub nested: Option<usize>,
     pub classes: Vec<String>,
 }
 
@@ -256,7 +261,11 @@ pub fn generate(profile: &str, seed: u64, index: u64) -> AsyncScenario {
     }
     classes.sort();
     classes.dedup();
-    AsyncScenario { engine: "N".into(), family: "async".into(), profile: profile.into(), variant: "x86_64-linux-native".into(), seed, index, lifetimes, classes }
+    let nested = if index % 17 == 16 { Some(rng.below(NF as u64) as usize) } else { None };
+    if let Some(f) = nested {
+        classes = vec![format!("two-injectors-on-one-thread-f{f}")];
+    }
+    AsyncScenario { engine: "N".into(), family: "async".into(), profile: profile.into(), variant: "x86_64-linux-native".into(), seed, index, lifetimes, nested, classes }
 }
 
 struct Injected;
@@ -319,7 +328,57 @@ pub fn execute(sc: &AsyncScenario, sh: &Shared) -> Value {
             }
         }
     };
+    if let Some(func) = sc.nested {
+        unsafe { libc::alarm(15) };
+        let func = func % NF;
+        let mut model: Vec<Vec<usize>> = vec![Vec::new(); NF];
+        let mut inj1 = InjectorPP::new();
+        install(&mut inj1, func, 0, false);
+        model[func].push(0);
+        check_await(0, 0, func, 5, &model, &mut digest, false);
+        if viol.borrow().is_empty() {
+            let returned = std::sync::Arc::new(std::sync::atomic::AtomicBool::new(false));
+            let r2 = returned.clone();
+            std::thread::spawn(move || {
+                std::thread::sleep(std::time::Duration::from_millis(250));
+                if !r2.load(Ordering::SeqCst) {
+                    // the second injector cannot be created while the first is alive: lifetimes on
+                    // one thread never overlap on this tree, nothing to judge
+                    crate::contain::report_and_exit(&json!({
+                        "violations": [], "digest": "00000000000b10c4", "probes": {"second_injector_on_the_same_thread_blocks": 1},
+                        "faults": {}, "events": 1, "calls": 1, "installs_ok": 1, "installs_refused": 0,
+                    }));
+                }
+            });
+            let mut inj2 = InjectorPP::new(); // blocks forever on a tree whose guard is not re-entrant
+            returned.store(true, Ordering::SeqCst);
+            *probes.entry("two_injectors_alive_on_one_thread".into()).or_insert(0) += 1;
+            install(&mut inj2, func, 1, false);
+            model[func].push(1);
+            check_await(0, 1, func, 6, &model, &mut digest, false);
+            // the older injector goes first; the newer one is still alive and still fakes the function
+            drop(inj1);
+            check_await(0, 2, func, 7, &model, &mut digest, false);
+            for f in 0..NF {
+                if f != func {
+                    check_await(0, 3, f, 8, &model, &mut digest, false);
+                }
+            }
+            drop(inj2);
+            let empty: Vec<Vec<usize>> = vec![Vec::new(); NF];
+            for f in 0..NF {
+                check_await(0, 999, f, 3 + f as u32, &empty, &mut digest, true);
+            }
+            awaits += 4 + 2 * NF as u64;
+            fakes += 2;
+        } else {
+            drop(inj1);
+        }
+    }
     for (li, lt) in sc.lifetimes.iter().enumerate() {
+        if sc.nested.is_some() {
+            break;
+        }
         unsafe { libc::alarm(15) };
         let mut model: Vec<Vec<usize>> = vec![Vec::new(); NF];
         let mut inj = InjectorPP::new();
